@@ -225,7 +225,8 @@ func ToCommandLine(wf WireFormat, resolveIds bool) (rule string, err error) {
 		for idx, syscallID := range r.syscalls {
 			list[idx], ok = syscallTable[int(syscallID)]
 			if !ok {
-				return "", fmt.Errorf("syscall %d not found for arch %s", syscallID, arch)
+				// No name on this arch: print the number, which -S accepts too.
+				list[idx] = strconv.Itoa(int(syscallID))
 			}
 		}
 
